@@ -6,7 +6,71 @@ import (
 	ma "github.com/multiformats/go-multiaddr"
 )
 
-var vrfEntries = map[string]func(){"VrfC15Ipfshttp": VrfC15Ipfshttp}
+var vrfEntries = map[string]func(){"VrfC15Ipfshttp": VrfC15Ipfshttp, "VrfC15IpfshttpEnv": VrfC15IpfshttpEnv}
+
+// VrfC15IpfshttpEnv: settings supplied through environment variables. From an
+// arbitrary valid loaded configuration, any subset of the section's variables
+// is set to arbitrary well-formed values: when ApplyEnvVars accepts them, every
+// supplied value is in effect, every other
+// setting is unchanged and the result is valid; when a supplied value makes the
+// configuration invalid, it is refused.
+func VrfC15IpfshttpEnv() {
+	addr, _ := ma.NewMultiaddr("/ip4/127.0.0.1/tcp/5001")
+	cfg := &Config{NodeAddr: addr,
+		ConnectSwarmsDelay: time.Duration(vrf_nondet_int64("connect_swarms_delay")),
+		IPFSRequestTimeout: time.Duration(vrf_nondet_int64("ipfs_request_timeout")),
+		PinTimeout:         time.Duration(vrf_nondet_int64("pin_timeout")),
+		UnpinTimeout:       time.Duration(vrf_nondet_int64("unpin_timeout")),
+		RepoGCTimeout:      time.Duration(vrf_nondet_int64("repogc_timeout")),
+		UnpinDisable:       vrf_nondet_bool("unpin_disable")}
+	vrf_assume(cfg.Validate() == nil)
+	before := *cfg
+
+	durs := []struct {
+		field string
+		dst   *time.Duration
+		old   time.Duration
+	}{
+		{"ConnectSwarmsDelay", &cfg.ConnectSwarmsDelay, before.ConnectSwarmsDelay},
+		{"IPFSRequestTimeout", &cfg.IPFSRequestTimeout, before.IPFSRequestTimeout},
+		{"PinTimeout", &cfg.PinTimeout, before.PinTimeout},
+		{"UnpinTimeout", &cfg.UnpinTimeout, before.UnpinTimeout},
+		{"RepoGCTimeout", &cfg.RepoGCTimeout, before.RepoGCTimeout},
+	}
+	sets := make([]bool, len(durs))
+	vals := make([]time.Duration, len(durs))
+	for i, d := range durs {
+		sets[i] = vrf_nondet_bool("env_set_" + d.field)
+		vals[i] = time.Duration(vrf_nondet_int64("env_" + d.field))
+		vrf_env(envConfigKey, d.field, sets[i], vals[i].String())
+	}
+	setUD := vrf_nondet_bool("env_set_UnpinDisable")
+	valUD := vrf_nondet_bool("env_UnpinDisable")
+	vrf_env(envConfigKey, "UnpinDisable", setUD, vrf_ite_str(valUD, "true", "false"))
+
+	err := cfg.ApplyEnvVars()
+
+	// what the configuration must be if the variables are honoured
+	want := before
+	wd := []*time.Duration{&want.ConnectSwarmsDelay, &want.IPFSRequestTimeout, &want.PinTimeout, &want.UnpinTimeout, &want.RepoGCTimeout}
+	for i := range durs {
+		// (durations travel as text here: "0s" is a value, only an empty text keeps what is there)
+		*wd[i] = time.Duration(vrf_ite_int(sets[i], int(vals[i]), int(*wd[i])))
+	}
+	want.UnpinDisable = vrf_or(vrf_and(setUD, valUD), vrf_and(!setUD, before.UnpinDisable))
+	wantValid := want.Validate() == nil
+	if err == nil {
+		for i, d := range durs {
+			vrf_assert(*d.dst == *wd[i], "C15.ipfshttp.env-in-effect")
+		}
+		vrf_assert(cfg.UnpinDisable == want.UnpinDisable, "C15.ipfshttp.env-in-effect")
+		vrf_assert(cfg.NodeAddr != nil && cfg.NodeAddr.Equal(before.NodeAddr), "C15.ipfshttp.env-others-unchanged")
+		vrf_assert(cfg.Validate() == nil, "C15.ipfshttp.env-accepted-implies-valid")
+	} else {
+		vrf_assert(!wantValid, "C15.ipfshttp.env-valid-accepted")
+	}
+	vrf_reach("C15.ipfshttp.env-end")
+}
 
 func VrfC15Ipfshttp() {
 	d := &Config{}
